@@ -382,8 +382,40 @@ def tls_constants(out):
     out.append("def tlsNameOrderHostThenHostnameThenSni : Bool := true")
 
 
+def udpmap_constants(out):
+    # C01: the client's UDP maps (client/mod.rs), the prune timeout (config.rs, non-test value), the
+    # server's reply rule (forwarder.rs) and its handling of a finished forwarder (websocket.rs)
+    cfg = strip_comments(read("penguin/src/config.rs"))
+    v = one(r"#\[cfg\(not\(test\)\)\]\s*pub const UDP_PRUNE_TIMEOUT\s*:\s*time::Duration\s*=\s*time::Duration::from_secs\((\d+)\)",
+            cfg, "config.rs UDP_PRUNE_TIMEOUT (non-test)")
+    out.append(f"def udpPruneTimeoutMs : Nat := {int(v) * 1000}")
+    src = strip_comments(read("penguin/src/client/mod.rs")).split("#[cfg(test)]\nmod tests")[0]
+    add = one(r"pub fn add_udp_client\((.*?)\n    \}\n", src, "client add_udp_client", re.S)
+    v = one(r"client_id_map\s*\.\s*(next_available_key|next_available_nonzero_key)\(", add, "add_udp_client key generator")
+    out.append(f"def udpClientIdNonzero : Bool := {'true' if v == 'next_available_nonzero_key' else 'false'}")
+    one(r"client_addr_map\.get\(&\(addr, our_addr\)\)", add, "add_udp_client looks the tuple (addr, our_addr) up")
+    one(r"client_addr_map\.insert\(\(addr, our_addr\), client_id\)", add, "add_udp_client inserts the tuple")
+    rep = one(r"async fn send_datagram_reply\((.*?)\n    \}\n", src, "client send_datagram_reply", re.S)
+    v = one(r"if client_id == (\d+) \{", rep, "send_datagram_reply stdio sentinel")
+    out.append(f"def udpStdioClientId : Nat := {int(v)}")
+    pr = one(r"fn prune_udp_clients\(&self\)(.*?)\n    \}\n", src, "client prune_udp_clients", re.S)
+    one(r"if entry\.expires > now \{\s*true\s*\}", pr, "prune keeps entries with expires > now")
+    one(r"client_addr_map\s*\.remove\(&\(entry\.peer_addr, entry\.our_addr\)\)", pr, "prune removes the tuple of the entry")
+    fw = strip_comments(read("penguin/src/server/forwarder.rs")).split("#[cfg(test)]")[0]
+    f = one(r"async fn udp_forward_on\((.*?)\n\}\n", fw, "forwarder udp_forward_on", re.S)
+    one(r"let Datagram \{\s*target_host: rhost,\s*target_port: rport,\s*flow_id,\s*data,\s*\} = first_datagram_frame;", f,
+        "udp_forward_on takes flow_id from the first datagram")
+    one(r"let frame = Datagram \{\s*target_host: rhost\.clone\(\),\s*target_port: rport,\s*flow_id,\s*data: buf\.into\(\),\s*\};", f,
+        "udp_forward_on builds the reply with the same flow_id")
+    out.append("def serverReplyKeepsFlowId : Bool := true")
+    ws = strip_comments(read("penguin/src/server/websocket.rs"))
+    v = one(r"TrySendError::Closed\((\w+)\)\)?\s*=>", ws, "websocket.rs: forwarder channel closed arm")
+    out.append(f"def serverRespawnsFinishedForwarder : Bool := {'false' if v == '_' else 'true'}")
+
+
 SECTIONS = {"Frame": frame_constants, "Config": config_constants, "Socks": socks_constants,
-            "Client": client_constants, "Server": server_constants, "Tls": tls_constants}
+            "Client": client_constants, "Server": server_constants, "Tls": tls_constants,
+            "UdpMap": udpmap_constants}
 
 
 def write_if_changed(path, text):
